@@ -10,6 +10,10 @@ decidable token discipline of Model/Event.lean / Proofs/EventTok.lean.  Invarian
 Proofs/Event*.lean.
 -/
 import YaclibModel.Proofs.EventProgress
+import YaclibModel.Proofs.EventExec2
+import YaclibModel.Proofs.StrandTowerInline
+import YaclibModel.Proofs.StrandTowerManual
+import YaclibModel.Proofs.PoolExecContract
 import YaclibModel.Extracted.Kernels
 import YaclibModel.Model.Skeletons
 
@@ -147,6 +151,77 @@ theorem oneshot_event_same {ts : Nat} (h : Workload.oneshot w ts) : w.ok := by
 theorem quiescent_complete (hok : w.ok) (h : Reachable w s) (hq : ∀ l s', Step s l s' → Spur s l) (hz : s.zeroed = true) :
     (∀ t, (s.thr t).pc = .idle ∧ (s.thr t).prog = []) ∧ ∀ j, j < s.njobs → JobDone (s.job j) :=
   quiescent_done (invZ_reachable h) (invT_reachable hok h) (invJ_reachable hok h) (invQ_reachable hok h) hq hz
+
+
+/-! ### on-executor waiters over a real executor (Proofs/EventExec*.lean)
+
+The waiters `j` with `X j` (`co_await wg.AwaitOn(e)` / sticky on `e`) are released through an executor `E` given as an open
+transition system (`Yaclib.Strand.Exec`): the model's `rel t j` = `E`'s `sub j`; `call j` … `ret j` = the coroutine is resumed;
+`drop j` = it is completed with StopError.  `nrel j` counts the hand-over (Submit), so a waiter that is Dropped later counts as
+released once; that the executor then Calls or Drops it exactly once is `ExecContract E`. -/
+section OverExec
+open Yaclib.Strand (Exec ExecContract inlineExec manualExec tower inline_contract manual_contract tower_satisfies_contract)
+open Yaclib.Pool (poolExec pool_contract)
+variable {E : Exec} {X : Nat → Bool} {x x' : XState E} {xl : XLab}
+
+/-- projection, for EVERY executor `E`: the event component of a reachable composed state is reachable in the plain model (all
+    theorems above apply to it) and the executor component is reached with a protocol-honouring client -/
+theorem xevent_projects (h : XReach w E X x) : Reachable w x.m ∧ E.Run x.x x.p := Yaclib.Event.xevent_projects h
+
+theorem released_only_at_zero_over (hok : w.ok) (hc : ExecContract E) (h : XReach w E X x) (hs : XStep E X x xl x') :
+    (∀ t j, xl = .sub t j → x.m.zeroed = true) ∧
+    (∀ j, xl = .call j ∨ xl = .drop j → x.m.zeroed = true ∧ (x.m.job j).nrel = 1) :=
+  released_only_at_zero_over' hok hc h hs
+
+theorem released_once_over (hok : w.ok) (hc : ExecContract E) (h : XReach w E X x) (hs : XStep E X x xl x') (j : Nat) :
+    (x.m.job j).nrel ≤ 1 ∧ (∀ t, xl = .sub t j → x.p j = .fresh ∧ (x.m.job j).nrel = 0 ∧ (x'.m.job j).nrel = 1) ∧
+    (xl = .call j ∨ xl = .drop j → x.p j = .pending) :=
+  released_once_over' hok hc h hs j
+
+/-- every thread has finished, every waiter is done, and the executor holds nothing: whatever was submitted is finished -/
+def OverDone {E : Exec} (x : XState E) : Prop :=
+  ((∀ t, (x.m.thr t).pc = .idle ∧ (x.m.thr t).prog = []) ∧ ∀ j, j < x.m.njobs → JobDone (x.m.job j)) ∧
+  ∀ j, x.p j ≠ .fresh → x.p j = .finished
+
+/-- quiet composition ⇒ nothing pending in `E`: every on-executor waiter the event released has been resumed or dropped -/
+theorem quiescent_complete_over (hok : w.ok) (hc : ExecContract E) (h : XReach w E X x) (hq : XQuiet E X x)
+    (hz : x.m.zeroed = true) : OverDone x :=
+  quiescent_complete_over' hok hc h hq hz
+
+/-! instances: the library's executors -/
+
+theorem quiescent_over_inline (alive : Bool) (hok : w.ok) {x : XState (inlineExec alive)} (h : XReach w _ X x)
+    (hq : XQuiet _ X x) (hz : x.m.zeroed = true) : OverDone x := quiescent_complete_over hok (inline_contract alive) h hq hz
+
+theorem quiescent_over_manual (hok : w.ok) {x : XState (manualExec false)} (h : XReach w _ X x) (hq : XQuiet _ X x)
+    (hz : x.m.zeroed = true) : OverDone x := quiescent_complete_over hok manual_contract h hq hz
+
+theorem quiescent_over_pool {n : Nat} (hn : 0 < n) (stop : Option Yaclib.Pool.StopKind) (spur : Bool) (hok : w.ok)
+    {x : XState (poolExec n stop spur)} (h : XReach w _ X x) (hq : XQuiet _ X x) (hz : x.m.zeroed = true) :
+    OverDone x := quiescent_complete_over hok (pool_contract hn stop spur) h hq hz
+
+theorem quiescent_over_tower {base : Exec} (hb : ExecContract base) (n : Nat) (hok : w.ok) {x : XState (tower base n)}
+    (h : XReach w _ X x) (hq : XQuiet _ X x) (hz : x.m.zeroed = true) : OverDone x :=
+  quiescent_complete_over hok (tower_satisfies_contract hb n) h hq hz
+
+/-- non-vacuity: `co_await wg.AwaitOn(e)` with `e` = the STOPPED inline executor: the waiter is pushed, the count reaches zero,
+    SetImpl releases it = Submit (sub 0), the executor Drops it (drop 0): released once (`nrel = 1`), finished in `E` -/
+example : ∃ x : XState (inlineExec false),
+    XReach ⟨2, fun t => if t = 0 then [.done 1] else [.await .on], fun t => if t = 0 then 1 else 0, 0⟩ (inlineExec false) (fun _ => true) x ∧
+    (x.m.job 0).nrel = 1 ∧ x.p 0 = .finished := by
+  let w : Workload := ⟨2, fun t => if t = 0 then [.done 1] else [.await .on], fun t => if t = 0 then 1 else 0, 0⟩
+  have h0 : XReach w (inlineExec false) (fun _ => true) (xinit w _) := .init
+  have h1 := XReach.step h0 (XStep.plain (l := .hLoad 1 (.cur [])) (next_sound (s' := _) rfl) rfl)
+  have h2 := XReach.step h1 (XStep.plain (l := .hCas 1 true) (next_sound (s' := _) rfl) rfl)
+  have h3 := XReach.step h2 (XStep.plain (l := .fsub 0 1 1) (next_sound (s' := _) rfl) rfl)
+  have h4 := XReach.step h3 (XStep.plain (l := .hXchg 0 (some [0])) (next_sound (s' := _) rfl) rfl)
+  have h5 := XReach.step h4 (XStep.sub (t := 0) (j := 0) (lx := Yaclib.Strand.XEv.sub 0)
+    (x' := Yaclib.Strand.upd Yaclib.Strand.protInit 0 .pending) (next_sound (s' := _) rfl) rfl (by exact ⟨rfl, rfl⟩) rfl rfl)
+  have h6 := XReach.step h5 (XStep.drop (j := 0) (lx := Yaclib.Strand.XEv.drop 0)
+    (x' := Yaclib.Strand.upd (Yaclib.Strand.upd Yaclib.Strand.protInit 0 .pending) 0 .finished) (by exact ⟨rfl, rfl, rfl⟩) rfl)
+  exact ⟨_, h6, rfl, rfl⟩
+
+end OverExec
 
 /-- everything the trace validator accepts is a behaviour the theorems speak about -/
 theorem validator_sound (h : Reachable w s) (hn : next s l = some s') : Reachable w s' := .step h (next_sound hn)
